@@ -9,20 +9,24 @@ d = os.path.join(src, k)
 patch = os.path.join(d, "patch_rebased.diff") if os.path.exists(os.path.join(d, "patch_rebased.diff")) else os.path.join(d, "patch.diff")
 def sh(cmd, **kw):
     return subprocess.run(cmd, shell=True, capture_output=True, text=True, **kw)
-assert sh("git -C /repo status --porcelain").stdout.strip() == "", "/repo not clean"
+# The mutant is applied in a scratch worktree of /repo's HEAD and the check is pointed at it with
+# MSDM_REPO (equivalent to `git -C /repo apply` + undo, but safe while other checks run on /repo).
+WT = "/tmp/mutrun_%s_%s" % (prop, k)
+sh("git -C /repo worktree remove --force %s" % WT)
+assert sh("git -C /repo worktree add -q --detach %s HEAD" % WT).returncode == 0
 env = dict(os.environ, PYTHONPATH="/repo")
 demo_clean = subprocess.run(["/venv/bin/python", os.path.join(d, "demo.py")], capture_output=True, text=True, env=env, timeout=900).returncode
-r = sh("git -C /repo apply %s" % patch)
+r = sh("git -C %s apply %s" % (WT, patch))
 if r.returncode != 0:
-    r = sh("git -C /repo apply --3way %s" % patch)
+    r = sh("git -C %s apply --3way %s" % (WT, patch))
     if r.returncode != 0:
-        print("PATCH DOES NOT APPLY:", r.stderr[-500:]); sh("git -C /repo checkout -- . ; git -C /repo reset -q"); sys.exit(2)
-    sh("git -C /repo reset -q")
+        print("PATCH DOES NOT APPLY:", r.stderr[-500:]); sh("git -C /repo worktree remove --force %s" % WT); sys.exit(2)
 try:
+    env = dict(os.environ, PYTHONPATH=WT)
     demo_mut = subprocess.run(["/venv/bin/python", os.path.join(d, "demo.py")], capture_output=True, text=True, env=env, timeout=900).returncode
     results = {}
     for seed in ("0",):
-        c = subprocess.run(["./check", prop, "--tier", "quick"], cwd=ROOT, capture_output=True, text=True, env=dict(os.environ, VERIF_SEED=seed), timeout=3000)
+        c = subprocess.run(["./check", prop, "--tier", "quick"], cwd=ROOT, capture_output=True, text=True, env=dict(os.environ, VERIF_SEED=seed, MSDM_REPO=WT), timeout=3000)
         lines = [l for l in c.stdout.splitlines() if not l.startswith("KNOWN-FINDING")]
         sigs = []
         for l in lines:
@@ -34,7 +38,7 @@ try:
                     pass
         results[seed] = {"exit": c.returncode, "tail": lines[-3:], "signatures": sorted(set(sigs))[:8]}
 finally:
-    sh("git -C /repo checkout -- .")
+    sh("git -C /repo worktree remove --force %s" % WT)
     sh("find %s/replays -name '%s_*' -newer %s -delete" % (ROOT, prop, patch))
 caught = any(v["exit"] == 1 for v in results.values())
 print(json.dumps({"prop": prop, "k": k, "demo_clean_exit": demo_clean, "demo_mutant_exit": demo_mut, "check": results, "caught": caught}, indent=1))
@@ -48,7 +52,7 @@ if save:
     notes = open(os.path.join(d, "notes.md")).read() if os.path.exists(os.path.join(d, "notes.md")) else ""
     json.dump({"property": prop, "breaks": notes[:1500], "needs_to_manifest": "see notes.md",
                "ran": {"demo_on_clean_repo_exit": demo_clean, "demo_with_patch_exit": demo_mut,
-                       "check_cmd": "git -C /repo apply patch.diff && ./check %s --tier quick; git -C /repo checkout -- ." % prop,
+                       "check_cmd": "git -C /repo worktree add --detach /tmp/wt HEAD && git -C /tmp/wt apply patch.diff && MSDM_REPO=/tmp/wt ./check %s --tier quick  (same as applying to /repo and undoing)" % prop,
                        "check_result": results},
                "caught_by_check": caught, "repo_head": sh("git -C /repo rev-parse --short HEAD").stdout.strip()},
               open(os.path.join(out, "meta.json"), "w"), indent=1)
